@@ -54,12 +54,10 @@ def p_enc(op, args, real):
 
 
 def dir_shadow(args):
-    """known finding, same root cause: general form, rcp not named, an oct key, a `dir` recipient precedes the key's own"""
+    """known finding, same root cause: general form, rcp not named, a `dir` recipient precedes the key's own (dir's unwrap
+    copies ANY key into the CEK, whatever its type: lib/openssl/dir.c alg_wrap_unw)"""
     jwe, jwk = args.get("jwe"), args.get("jwk")
     if "rcp" in args or not isinstance(jwe, dict) or not isinstance(jwe.get("recipients"), list):
-        return False
-    keys = jwk if isinstance(jwk, list) else [jwk]
-    if not any(isinstance(k, dict) and k.get("kty") == "oct" for k in keys):
         return False
     algs = [(r.get("header") or {}).get("alg") for r in jwe["recipients"] if isinstance(r, dict)]
     return "dir" in algs[:-1]
@@ -129,7 +127,11 @@ def run(ctx):
             combos = [(False, None, "protected")]
             if not quick or rng.random() < 0.5:
                 combos += [(True, None, "protected"), (False, "YWFk", "protected"), (True, "QUFE" * 30, "protected"),
-                           (False, "", "protected"), (False, None, "unprotected"), (False, None, "recipient")]
+                           (False, "", "protected"), (False, None, "unprotected"), (False, None, "recipient"),
+                           (False, "", "unprotected")]
+            if wrap in ("dir", "A128KW", "ECDH-ES", "RSA-OAEP", "A256GCMKW", "PBES2-HS256+A128KW") or not quick:
+                # RFC 7520 5.12 shape: no protected header at all, with "aad": the AAD is "." || aad
+                combos += [(False, "YWFk", "unprotected"), (False, "QUFE" * 30, "unprotected")]
             for zip_, aad, place in combos:
                 key = E.key_for(pool, wrap, enc, rng)
                 jwe, rcp = templates(wrap, enc, zip_, aad, place)
